@@ -14,6 +14,7 @@ import sympy as sp
 from contracts import tables
 from nssvc import harness, sym
 from nssvc.harness import Stub
+from nssvc.sym import Unsupported
 
 LEVEL = "other"
 EXPLANATION = ("row interpolation is proved for every row length up to a small bound over all reals (C04), slice composition and writer/reader key pairing are proved on the real source, the shipped tables "
@@ -49,6 +50,22 @@ def _tok(x):
     if isinstance(x, np.ndarray) and x.dtype == object and x.shape == ():
         return x.item()
     return x
+
+
+def tok_array_overrides():
+    """np.asarray / np.array / np.ascontiguousarray / np.asanyarray / np.require of an array token without a dtype keep its content, shape
+    and element type (numpy contract: only the memory layout / ownership may change), so the token itself is the result; with a dtype the
+    call is a cast, which the pairing obligations do not model (unsupported -> native stand-in decides)"""
+    def keep(fn):
+        def f(interp, x, dtype=None, *a, **k):
+            t = _tok(x)
+            if isinstance(t, Tok):
+                if dtype is not None or a or k.get("dtype") is not None:
+                    raise Unsupported("array conversion of a stored array with a dtype (a cast)")
+                return t
+            return fn(x, dtype, *a, **k) if dtype is not None else fn(x, *a, **k)
+        return f
+    return {fn: keep(fn) for fn in (np.asarray, np.array, np.ascontiguousarray, np.asanyarray)}
 
 
 def slice_obligations(ck):
@@ -206,6 +223,7 @@ def hdf5_pairing(ck):
             return files.setdefault(filename, H5File([], "/"))
 
         ov = {h5py.File: h5file, GM.NssGrid: lambda interp, d, axes=None, axis_names=None, **k: made.update(data=d, axes=list(axes), names=list(axis_names)) or "GRID"}
+        ov.update(tok_array_overrides())
         it = harness.make_interp(ov)
         ps = it.explore(lambda: (GM.hdf5_nssgrid_writer, [g, "F.h5"], {}))
         ps2 = it.explore(lambda: (GM.hdf5_nssgrid_reader, ["F.h5"], {})) if len(ps) == 1 and ps[0].kind == "return" else []
@@ -285,10 +303,29 @@ def fits_pairing(ck):
         g = grid_tokens(names)
         made = {}
         HDUL.files = {}
-        ov = {GM.fits.PrimaryHDU: lambda interp, data, header=None: Primary(data, header or {}), GM.fits.Header: lambda interp, d: dict(d),
-              GM.fits.BinTableHDU: lambda interp, t, name=None: BinT(t, name), GM.AstropyTable: lambda interp, cols, names=None, meta=None: TblS(cols, names, meta),
+        def m_table(interp, data=None, masked=False, names=None, dtype=None, meta=None, **k):
+            # astropy Table: a list of columns with names=, or a dict name -> column (columns in insertion order)
+            if masked or dtype is not None or k:
+                raise Unsupported("Table(...) options outside the stub's contract: %s" % sorted(k))
+            if isinstance(data, dict):
+                return TblS(list(data.values()), list(data.keys()), meta)
+            return TblS(data, names, meta)
+
+        def m_bintable(interp, data=None, header=None, name=None, **k):
+            if header is not None or k:
+                raise Unsupported("BinTableHDU(...) options outside the stub's contract")
+            return BinT(data, name)
+
+        def m_primary(interp, data=None, header=None, **k):
+            if k:
+                raise Unsupported("PrimaryHDU(...) options outside the stub's contract: %s" % sorted(k))
+            return Primary(data, header or {})
+
+        ov = {GM.fits.PrimaryHDU: m_primary, GM.fits.Header: lambda interp, d=None, **k: dict(d or {}),
+              GM.fits.BinTableHDU: m_bintable, GM.AstropyTable: m_table,
               GM.fits.HDUList: lambda interp, hdus: HDUL(hdus), GM.fits.open: lambda interp, filename, **k: HDUL.files[filename],
               GM.NssGrid: lambda interp, d, axes=None, axis_names=None, **k: made.update(data=d, axes=list(axes), names=list(axis_names)) or "GRID"}
+        ov.update(tok_array_overrides())
         it = harness.make_interp(ov)
         ps = it.explore(lambda: (GM.fits_nssgrid_writer, [g, "F.fits"], {}))
         ps2 = it.explore(lambda: (GM.fits_nssgrid_reader, ["F.fits"], {})) if len(ps) == 1 and ps[0].kind == "return" else []
